@@ -629,6 +629,15 @@ def main() -> None:  # noqa: C901
             nob.finding_key = f"{tname}::{kind}::null::{role}"
     chk.extra["paths_explored"] = n_paths
 
+    # the two calendar lemmas vc.loadvc.LoadEngine uses as rewrites: verified for every year, model and real DuckDB
+    from vc import sqlconf as _sqlconf
+    lob = chk.ob("vc/loadvc.py:LoadEngine::lemma::weekofyear(y-12-28)=isoweeks(y) and dayofyear(y-12-31)=days(y)",
+                 "src/vtlengine/duckdb_transpiler/sql/init.sql:vtl_period_in_calendar",
+                 "for every year 1..9999: WEEKOFYEAR(MAKE_DATE(y,12,28)) is the number of ISO weeks of y and "
+                 "DAYOFYEAR(MAKE_DATE(y,12,31)) the number of its days (used as rewrites by the symbolic loader interpreter)")
+    okl, whyl = loadvc.lemma_calendar_rewrites(_sqlconf.conn())
+    lob.backend, lob.detail = "exhaustive-evaluation", whyl
+    lob.status = DISCHARGED if okl else "fault"
     import time as _t
     phases: Dict[str, float] = {}
     chk.extra["slowest_analyses"] = sorted(
